@@ -522,6 +522,15 @@ class RealEncoder(AbstractItemEncoder):
 class SequenceEncoder(AbstractItemEncoder):
     omitEmptyOptionals = False
 
+    @staticmethod
+    def _isDefault(component, namedType):
+        try:
+            return component == namedType.asn1Object
+
+        except error.PyAsn1Error:
+            # records that differ in the components present do not compare
+            return False
+
     # TODO: handling three flavors of input is too much -- split over codecs
 
     def encodeValue(self, value, asn1Spec, encodeFun, **options):
@@ -570,7 +579,7 @@ class SequenceEncoder(AbstractItemEncoder):
                             LOG('not encoding OPTIONAL component %r' % (namedType,))
                         continue
 
-                    if namedType.isDefaulted and component == namedType.asn1Object:
+                    if namedType.isDefaulted and self._isDefault(component, namedType):
                         if LOG:
                             LOG('not encoding DEFAULT component %r' % (namedType,))
                         continue
@@ -638,7 +647,7 @@ class SequenceEncoder(AbstractItemEncoder):
                     # accepts may spell the default (octets for a text string)
                     component = defaultValue.clone(component)
 
-                if namedType.isDefaulted and component == namedType.asn1Object:
+                if namedType.isDefaulted and self._isDefault(component, namedType):
                     if LOG:
                         LOG('not encoding DEFAULT component %r' % (namedType,))
                     continue
